@@ -2,6 +2,8 @@ package bulking
 
 import (
 	"encoding/json"
+	"errors"
+	"io"
 	"net/http"
 )
 
@@ -33,7 +35,9 @@ func (h *JSONStreamBulkHandler) GetChannels(_ http.ResponseWriter, r *http.Reque
 				nextElement := &BulkElement{}
 				err := dec.Decode(nextElement)
 				if err != nil {
-					h.err = err
+					if !errors.Is(err, io.EOF) { // the end of the stream is not an error
+						h.err = err
+					}
 					return
 				}
 
